@@ -130,7 +130,7 @@ Proof.
       * apply Hx. apply in_or_app. auto.
       * apply Hni. left. auto.
       * apply Hx. apply in_or_app. auto.
-    + apply IH; auto.
+    + apply IH; auto. intros Hin. apply Hni. right. exact Hin.
 Qed.
 
 (* everything the state invariant says about the chain and the ids survives a step *)
@@ -215,13 +215,13 @@ Proof.
   set (mid := c / 2) in *. set (i := lb ks (kz k)) in *.
   destruct (nth_error ks mid) as [r0|] eqn:En; [|apply nth_error_None in En; lia].
   pose proof (skipn_nth_cons _ _ En) as Hsk. rewrite Hsk.
-  rewrite (lt_mid_key_iff (kz k) mid Hs Ef En). fold i.
+  rewrite (@lt_mid_key_iff ks (kz k) mid r0 Hs Ef En). fold i.
   destruct (Nat.leb_spec i mid) as [Hle|Hgt].
   - (* into the left half *)
     assert (Bl : bfound (firstn mid ks) (kz k) = false).
     { apply (@bfound_sub_false ks); auto; [apply sorted_keys_firstn; auto|].
       intros x Hx. eapply In_firstn; eauto. }
-    rewrite (leaf_insert_absent _ _ _ Bl). cbn [bind fst snd].
+    rewrite leaf_insert_absent by exact Bl. cbn [bind fst snd].
     rewrite lb_firstn_le by (fold i; lia). fold i.
     exists (S mid), r0. split; [|split].
     + unfold K, VV. fold i. rewrite !firstn_S_insert_at, !skipn_S_insert_at by lia.
@@ -232,7 +232,7 @@ Proof.
     assert (Br : bfound (r0 :: skipn (S mid) ks) (kz k) = false).
     { rewrite <- Hsk. apply (@bfound_sub_false ks); auto; [apply sorted_keys_skipn; auto|].
       intros x Hx. eapply In_skipn; eauto. }
-    rewrite (leaf_insert_absent _ _ _ Br). cbn [bind fst snd].
+    rewrite leaf_insert_absent by exact Br. cbn [bind fst snd].
     rewrite <- Hsk. rewrite lb_skipn_sub by (fold i; lia). fold i.
     exists mid, r0. split; [|split].
     + unfold K, VV. fold i. rewrite !firstn_insert_at_le, !skipn_insert_at_ge by lia.
@@ -267,7 +267,7 @@ Proof.
                                 (insert_at (lb ks (kz k)) v vs) next)).
       split.
       { unfold py_ins_leaf. rewrite Ef. destruct (Nat.leb_spec c (length ks)); [lia|].
-        cbn [negb]. rewrite (leaf_insert_absent _ _ _ Ef). reflexivity. }
+        cbn [negb]. rewrite leaf_insert_absent by exact Ef. reflexivity. }
       split; [lia|]. split; [left; reflexivity|]. split; [|split]; cbn.
       * split.
         -- constructor; [apply sorted_keys_insert_at_lb; auto|apply Forall_insert_at; auto].
